@@ -44,6 +44,8 @@ type Exec struct {
 	inPanicHandler bool
 	inPanicExit bool
 	usesScratch bool // the verified function's contract mentions a scratch ghost
+	usesBefore  bool   // some site clause uses before(e)
+	preSiteSt   *State // the state before the instruction whose site clauses are being evaluated
 	pendingPanicVal *Val
 	inheritedMeasure bool
 	assignsEnv *Env
